@@ -1,4 +1,5 @@
 import BfeVerif.C29.Proofs
+import BfeVerif.Generated.C29
 /-!
   C29 — client address cannot be spoofed by untrusted peers.  Property theorems only.
   `resolve i` = (`req.ClientAddr` after `setClientAddr`, header map after `mod_header.setDefaultHeader`);
@@ -71,6 +72,51 @@ theorem C29_trusted_nil_untouched (i : In) (hn : (resolve i).1 = none) :
   simp only [hn]
   rw [hvals_hset_ne _ _ _ _ (by decide), hvals_appendTo_ne _ _ _ _ (by decide), hvals_appendTo_ne _ _ _ _ (by decide)]
   exact hvals_xfh i kXRealIp (by decide)
+
+/-- the tables of the composed C26 model (Generated/C26.lean, rewritten by a C26 check) equal what THIS check just
+    regenerated from the source (Generated/C29.lean): the theorems below are about the current tree -/
+theorem C29_tables_current :
+    BfeVerif.Generated.C26.hopHeaders = BfeVerif.Generated.C29.hopHeaders ∧
+    BfeVerif.Generated.C26.hopProtected = BfeVerif.Generated.C29.hopProtected := by decide
+
+/-! ### what reaches the backend: hop-by-hop removal runs AFTER mod_header -/
+
+/-- **Upstream headers of an untrusted peer**: also after `hopByHopHeaderRemove` — whatever the client's
+    `Connection` header names (`Connection: X-Real-Ip, X-Forwarded-For` included) — the request sent upstream
+    carries X-Real-Ip / X-Real-Port of the socket peer and an X-Forwarded-For ending with it.
+    (Holds since the second C26 fix: names in `hopByHopProtected` are exempt from Connection-token removal;
+    with fix cd2d7d0 alone `Connection: X-Real-Ip` stripped the header BFE had just set.) -/
+theorem C29_untrusted_upstream (i : In) (hu : trusted i = false) :
+    hvals (upstream i) kXRealIp = some [i.peerText] ∧
+    hvals (upstream i) kXRealPort = some [toDec i.peerPort] ∧
+    ∃ v, hvals (upstream i) kXFF = some [v] ∧ EndsWithElem v i.peerText := by
+  have h := C29_untrusted i hu
+  rw [upstream_keeps i kXRealIp (by decide), upstream_keeps i kXRealPort (by decide),
+      upstream_keeps i kXFF (by decide)]
+  exact h.2
+
+/-- the same for every peer: none of the headers BFE sets itself can be removed by the client's Connection header -/
+theorem C29_upstream_keeps_bfe_headers (i : In) :
+    ∀ k ∈ BfeVerif.Generated.C26.hopProtected, hvals (upstream i) k = hvals (resolve i).2 k :=
+  fun k hk => upstream_keeps i k hk
+
+/-! ### trust-table reloads: the table in force is the one most recently loaded successfully -/
+
+/-- a failed load keeps the table, a successful one replaces it — whatever the Version strings are -/
+theorem C29_reload_last_good (init : List (Bytes × Bytes)) (ls : List Load) (l : Load) :
+    tableAfter init (ls ++ [l]) = if l.good then l.ranges else tableAfter init ls := by
+  induction ls generalizing init with
+  | nil => simp [tableAfter]
+  | cons x xs ih => simp only [List.cons_append, tableAfter]; exact ih _
+
+/-- **A peer removed by a reload is untrusted at once**: after any history of loads, a connection whose peer is
+    outside the ranges of the last successful load gets the socket peer as client address and in the upstream
+    headers, whatever it was before and whatever Version the files carried. -/
+theorem C29_reload_untrusted (loads : List Load) (i : In)
+    (hi : i.table = tableAfter [] loads) (hu : trusted i = false) :
+    (resolve i).1 = some (i.peerText, (i.peerPort : Int)) ∧
+    hvals (upstream i) kXRealIp = some [i.peerText] :=
+  ⟨(C29_untrusted i hu).1, (C29_untrusted_upstream i hu).1⟩
 
 /-! ### trusted-peer corner cases, stated explicitly (all are instances of `C29_trusted`; the peer text,
     IPv4 or IPv6, and the dictionaries `ipd`/`ptd` are arbitrary, so nothing below depends on the address family) -/
@@ -145,6 +191,8 @@ def exV6 : In :=
     peerIP := [32,1,13,184,0,0,0,0,0,0,0,0,0,0,0,1], peerText := [50,48,48,49,58,100,98,56,58,58,49], peerPort := 65535, host := [],
     hdr := [(kXFF, [[50,48,48,49,58,100,98,56,58,58,57,44,32,49,46,49,46,49,46,49], [54,46,54,46,54,46,54]]), (kXFPort, [[55,48,48,48,48]])],
     localText := [108], ipd := [([50,48,48,49,58,100,98,56,58,58,57], some [50,48,48,49,58,100,98,56,58,58,57])], ptd := [([55,48,48,48,48], some 70000)] }
+/-- same Version, peer removed: the second file decides -/
+example : tableAfter [] [⟨[118], [([10], [20])], true⟩, ⟨[118], [], true⟩, ⟨[119], [([1], [2])], false⟩] = [] := by decide
 example : trusted exV6 = true ∧ (resolve exV6).1 = some ([50,48,48,49,58,100,98,56,58,58,57], 70000) := by decide
 
 end BfeVerif.C29
